@@ -24,7 +24,7 @@ reg("C04", "model_checking",
 
 reg("C02", "exploration",
     "bounded exhaustive enumeration of byte streams x read chunkings against an independent reference decoder",
-    "Every stream of <= 3 (thorough 4) tokens over a 30-token reserved-byte-rich alphabet, in every chunking (all 2^(n-1) for short streams), plus all 2-byte / selected 3-byte raw streams from "
+    "Every stream of <= 3 (thorough 4) tokens over a 32-token reserved-byte-rich alphabet, in every chunking (all 2^(n-1) for short streams), plus all 2-byte / selected 3-byte raw streams from "
     "every expected-number state, many-frames-per-read cases around the buffer bound, a garbage x read-size memory matrix, and the local commutation step feed(x+y) == feed(x);feed(y) "
     "from every reachable receiver state; outputs (deliveries, ACK/NAK numbers) compared with mc/env/ref_ash.RefReceiver.",
     "Reference decoder is my reading of UG101 (anchored by literal vectors). Streams longer than the token bound are covered only through the commutation step; nothing is sampled.",
@@ -53,8 +53,8 @@ reg("C15", "model_checking",
 
 reg("C05", "model_checking",
     "explicit-state search (level-synchronous BFS on canonical states) of the real AshProtocol transmit path under every per-attempt peer reaction, virtual time",
-    "Every reachable state of {queued sends x per-attempt peer reaction from a 14-item menu (covering ACK / DATA, stale ACK, NAK, silence, ERROR 0x51/0x80, RSTACK, "
-    "reaction coinciding with the ACK timeout in one loop iteration, NAK+ERROR in one read, 0.3 s late reactions) x failure -> silent link -> RSTACK recovery -> further send}, "
+    "Every reachable state of {queued sends x per-attempt peer reaction from a 16-item menu (covering ACK / DATA, stale and non-covering ACKs (ackNum f, f-1, f+4), NAK, silence, ERROR 0x51/0x80, RSTACK, "
+    "reaction coinciding with the ACK timeout in one loop iteration, NAK+ERROR in one read, 0.3 s late reactions) x failure -> silent link -> RSTACK recovery -> further send, a send submitted during a send after a mid-send RSTACK}, "
     "closed for each listed configuration incl. warm-ups that wrap the frame number and drive the adaptive timeout to its floor; the timestamped wire trace is judged incrementally "
     "(budget, same frmNum/payload, reTx flag, repeat timing in [0.4, 3.2] s or at once on NAK, single failure report, silence until RSTACK, consecutive numbering, one outstanding frame).",
     "Rare reactions draw on per-run budgets (stated in the evidence); oracle timing constants are the UG101 values hard-coded in the check; model = implementation on a hand-stepped asyncio loop.",
@@ -116,7 +116,7 @@ reg("C17", "model_checking",
     "formNetwork, leaveNetwork, network bring-up and startScan (v4, v8, v14; thorough 8 versions): all permutations of all subsets of {response ok / refusals, two matching status events, "
     "non-matching events, result callbacks, completion ok / error, timer expiry, cancellation} (about 57 000 executions quick). A reference automaton gives the expected outcome and the exact event "
     "that ends the operation (completion requires response OK and a matching event at any time after issue, also before the response; timeouts at exactly 10 s); left-over events are still delivered, "
-    "listener tables must be back to their size, and the operation is run again from the state reached.",
+    "listener tables must be back to their size, and the operation is run again from the state reached; plus all 720 orders of a second scan requested while a first one is in progress.",
     "Callbacks carry the last answered sequence number; timeouts hard-coded; scan results after the completion callback are optional; leak clause reads _callbacks / _stack_status_listeners.",
     "DESIGN.md section 3 C17")
 
@@ -124,7 +124,7 @@ reg("C13", "exploration",
     "bounded exhaustive enumeration of byte-level callback frames (independent encoder, both field orders) through the real receive path into ControllerApplication, every version",
     "Versions 4..14 x message types 0..7 x boundary sets of 15 fields (one-at-a-time + all pairs; thorough: triples) incl. RSSI -128/127, payload lengths 0..200, group/endpoint/profile extremes: "
     "exactly one packet for unicast/multicast/broadcast with every field equal to the encoded bytes and the type-dependent destination, none otherwise; trust-centre join callbacks for every status x "
-    "decision x address set, singly and as two joins in one read: join / leave / nothing as specified.",
+    "decision x address set, singly and as two joins in one read: join / leave / nothing as specified; the same application object reconnected to NCPs of other versions (field order must follow the active version).",
     "Frames are packed with struct in mc/checks/c13.py (pre-v14 and v14 layouts), independent of bellows types; recorders replace packet_received / handle_join / handle_leave on the instance.",
     "DESIGN.md section 3 C13")
 
@@ -151,7 +151,7 @@ reg("C09", "fault_enumeration",
     "Whole real stack (EZSP.connect -> startup_reset -> write_config, then stop + second startup_reset + write_config) on a hand-stepped loop; NCP versions 4, 7, 8, 14, 15 (thorough 4..16, 255) x "
     "{serial, socket://} x spontaneous start-up RSTACK {absent, early, late}; one execution per (wire frame, loss / detectable corruption / duplication), about 9 000 quick. Judged: first host frame "
     "is the RST unless the start-up reset was seen on a socket path, first EZSP frame after every reset is the legacy version(4), negotiated version == NCP's, own tables (v14 above 14), confirming "
-    "query in the new layout, no wrongly framed request ever reaches the NCP, write_config completes, DATA/ACK faults are absorbed.",
+    "query in the new layout, no wrongly framed request ever reaches the NCP, write_config completes, DATA/ACK faults are absorbed; a bring-up that timed out is retried once on the same connection and must then succeed with a fresh RST.",
     "NCP = reference ASH endpoint + EZSP simulator answering only correctly framed requests; a damaged RST/RSTACK or a second in-flight RSTACK may end in TimeoutError (inherent to ASH).",
     "DESIGN.md section 3 C09")
 
